@@ -65,7 +65,7 @@ def replays(failed):
             return None
         return judge
     yield ("empty ranges at the edges", "xs := [1, 2, 3]\nprint(xs[0:0] == [])\nprint(xs[3:3] == [])\nprint(xs[3:] == [])\nprint(xs[:0] == [])\n", exp("true\ntrue\ntrue\ntrue\n"))
-    yield ("split and rejoin", "xs := [1, 2, 3]\nprint(xs[:1] + xs[1:] == xs)\nprint(xs[:0] + xs[0:] == xs)\nprint(xs[:3] + xs[3:] == xs)\n", exp("true\ntrue\ntrue\n"))
+    yield ("split and rejoin", "xs := [1, 2, 3]\nprint((xs[:1] + xs[1:]) == xs)\nprint((xs[:0] + xs[0:]) == xs)\nprint((xs[:3] + xs[3:]) == xs)\n", exp("true\ntrue\ntrue\n"))
     yield ("string ranges", "s := \"abc\"\nprint(s[1:2])\nprint(s[:2])\nprint(s[2:])\nprint(s[1:1] == \"\")\n", exp("b\nab\nc\ntrue\n"))
     yield ("end beyond the list", "xs := [1, 2, 3]\nprint(xs[1:4])\n", exp(err="outside the list bounds"))
     yield ("start after end", "xs := [1, 2, 3]\nprint(xs[2:1])\n", exp(err="outside the list bounds"))
